@@ -297,6 +297,22 @@ theorem open_progress6 (tl : Bool) (draws : List Nat) (alt : (proto6 tl).Alt) (n
   open_progress6_x tl draws alt nt hnt sched w hadm hrun ha hb hda hdb
     (fun hc t o => no_online_acceptor_while_connecting6 tl sched w hrun .a hc hb t o)
 
+/-- **`Ready` exactly once (0.6)**: in every reachable world, a side that sent a `Connect` and is
+online has been told `Ready` exactly once -/
+theorem ready_exactly_once6 (tl : Bool) (sched : List (Move (proto6 tl))) (w : World (proto6 tl))
+    (hrun : NetSim.run (World.init (proto6 tl)) sched = some w) (s : Side) {t : Option Nat} {o : Online}
+    (h1 : (w.get s).conn.state = .online t o) (h2 : hasConnect (w.get s)) : readyCount (w.get s).events = 1 := by
+  have hm := ready_of_connector6 tl sched w hrun s h1 h2
+  have hne := readyCount_pos_of_mem hm
+  have hh := run_hs (hs6 tl) sched _ w init_hs hrun
+  cases s with
+  | a => rcases hh.1.1 with h0 | ⟨h, _⟩
+         · exact absurd h0 hne
+         · exact h
+  | b => rcases hh.2.1 with h0 | ⟨h, _⟩
+         · exact absurd h0 hne
+         · exact h
+
 /-! non-vacuity: (1) `a` has just called `connect`, `b` is untouched: five rounds, `a` online and told
 `Ready` once, `b` pending (0.6 acceptors go online with the first chunk packet); (2) `a` is online
 with an unflushed vital chunk, `b` still pending: four rounds, both online, the chunk delivered. -/
